@@ -35,7 +35,7 @@ def precheck(case):
 
 
 def budget(tier):
-    return 2400 if tier == "quick" else 6000
+    return 4500 if tier == "quick" else 8000
 
 
 def strategy(tier):
